@@ -116,6 +116,32 @@ def _inline_call(raw, bi, callee_raw):
             fix(nb)
 
 
+_ANCH = None
+
+
+def _is_anchor(fn):
+    """a function the rules can address: one of the pinned tree's functions whose name the rules mention (tables/anchors.json), recognised
+    by name AND owner -- a new helper that merely shares its name with a field or with another type's method (`ZipWriterStats::crc32`
+    vs the accessor `ZipFile::crc32`) is not one"""
+    global _ANCH
+    if _ANCH is None:
+        import json
+        try:
+            with open(os.path.join(HERE, "tables", "anchors.json")) as fh:
+                _ANCH = json.load(fh)
+        except OSError:
+            _ANCH = {}
+    fps = _ANCH.get(fn.name)
+    if not fps:
+        return fn.name in KEEP
+    own = re.sub(r"<.*$", "", fn.impl_self or "")
+    mod = fn.path.split("::")[0] if "::" in fn.path else ""
+    for fp in fps:
+        if re.sub(r"<.*$", "", fp.get("impl_self") or "") == own and (fp.get("module") or mod) == mod:
+            return True
+    return False
+
+
 def inline_unknown_helpers(facts):
     """returns {path: Fn} of functions with unknown private helpers inlined, and the list of (caller, callee) pairs inlined"""
     known = known_names()
@@ -134,7 +160,7 @@ def inline_unknown_helpers(facts):
     def inlinable(callee):
         if callee.kind != "AssocFn" and callee.kind != "Fn":
             return False
-        if callee.name in known:
+        if callee.name in known and _is_anchor(callee):
             return False
         if callee.vis == "Public" and not re.search(r"Restricted", callee.vis or ""):
             # `pub` items of private modules are still API-ish: leave them alone unless clearly internal
@@ -290,11 +316,50 @@ def _desugar_one(raw, bi, spec, closure_raw):
     return True
 
 
+FN_CALL = re.compile(r"ops::(function::)?(Fn|FnMut|FnOnce)::(call|call_mut|call_once)$")
+
+
+def _inline_direct_closure_calls(fns_by_path, f):
+    """`let pred = |v| v > T; pred(a) || pred(b)`: a closure written in this function and called directly is the expression it
+    abbreviates.  The call `Fn::call(&closure, (a,))` (rust-call ABI: arguments packed in a tuple built right before the call) is
+    replaced by the closure body.  -> (raw or None, set of closure paths spliced in)"""
+    raw = None
+    used = set()
+    for _ in range(6):
+        cur = raw if raw is not None else f.raw
+        todo = []
+        for bi, b in enumerate(cur["blocks"]):
+            t = b["term"]
+            if b.get("cleanup") or not t or t["k"] != "call" or len(t.get("args") or []) != 2 or not FN_CALL.search(t.get("callee") or ""):
+                continue
+            cf = fns_by_path.get(t.get("resolved") or "")
+            if cf is None or cf.kind != "Closure" or len(cf.blocks) > 25 or not cf.path.startswith(f.path + "::{closure"):
+                continue
+            a1 = t["args"][1]
+            if a1["k"] == "const" or a1["place"]["p"]:
+                continue
+            tup = [s for s in b["stmts"] if s["k"] == "assign" and s["place"]["l"] == a1["place"]["l"] and not s["place"]["p"] and
+                   s["rv"]["k"] == "agg" and s["rv"].get("ak") == "tuple"]
+            if len(tup) != 1 or len(tup[0]["rv"]["ops"]) + 1 != cf.arg_count:
+                continue
+            todo.append((bi, cf, tup[0]["rv"]["ops"]))
+        if not todo:
+            break
+        if raw is None:
+            raw = copy.deepcopy(f.raw)
+        for bi, cf, ops in todo:
+            t = raw["blocks"][bi]["term"]
+            t["args"] = [t["args"][0]] + copy.deepcopy(ops)
+            t["callee"] = cf.path
+            _inline_call(raw, bi, cf.raw)
+            used.add(cf.path)
+    return raw, used
+
+
 def desugar_combinators(fns_by_path, f):
     """-> new Fn with every closure-taking combinator call (closure written in this crate) replaced by its match; None if nothing changed"""
-    raw = None
-    changed = False
-    used = set()
+    raw, used = _inline_direct_closure_calls(fns_by_path, f)
+    changed = raw is not None
     for _ in range(4):
         cur = raw if raw is not None else f.raw
         todo = []
